@@ -2,14 +2,17 @@ package h1
 
 import (
 	"context"
+	"encoding/json"
 	"errors"
 	"fmt"
 	"reflect"
+	"sort"
 	"strings"
 	"time"
 
 	"github.com/samsarahq/thunder/federation"
 	"github.com/samsarahq/thunder/graphql"
+	"github.com/samsarahq/thunder/graphql/introspection"
 	"github.com/samsarahq/thunder/graphql/schemabuilder"
 	"github.com/samsarahq/thunder/thunderpb"
 	"simrt"
@@ -21,7 +24,7 @@ func init() {
 	for _, p := range []string{"C06", "C15"} {
 		runner.Register(p, runner.Scenario{Name: "federation", Options: opts, Body: fedBody})
 		runner.Register(p, runner.Scenario{Name: "federation-preempt", Options: func(string) simrt.Options {
-			return simrt.Options{MaxSteps: 400000, RotateMaps: true, ParkPermille: 5, PausePermille: 2}
+			return simrt.Options{MaxSteps: 400000, RotateMaps: true, ParkPermille: 5, PausePermille: 4, MapPausePermille: 200}
 		}, Body: fedBody})
 	}
 }
@@ -59,6 +62,8 @@ type fedWorld struct {
 	// wideKeys: services whose current version identifies an A by (id, name)
 	// and refuses to answer for a key whose name does not fit the id
 	wideKeys      map[string]bool
+	byTask        map[int]*fedRequest // request by the id of the task that called Execute
+	selected      map[string]string   // what the ServiceSelector answered, by "Type.field"
 	serviceErrors int
 	requestErrors []string
 }
@@ -333,10 +338,9 @@ func (fw *fedWorld) buildService(name string) (*graphql.Schema, error) {
 type transport struct {
 	c    *runner.Ctx
 	name string
-	// oldSrv keeps answering the requests that began before redeployAt (the
-	// old version is drained, not killed)
-	oldSrv     *federation.Server
-	redeployAt time.Duration
+	// oldSrv keeps answering the requests that were in flight when the service
+	// was redeployed (fedRequest.drain: the old version is drained, not killed)
+	oldSrv *federation.Server
 	srv        *federation.Server
 	requests   int
 	faulty     bool
@@ -355,6 +359,9 @@ func (t *transport) Execute(ctx context.Context, req *federation.QueryRequest) (
 		simrt.Logf("gateway -> %s: %s", t.name, printSelectionSet(req.Query.SelectionSet))
 	}
 	r, _ := ctx.Value(fedReqKey{}).(*fedRequest)
+	if r != nil && !isIntrospection {
+		r.hops++
+	}
 	switch d := t.c.Biased(5, 500, "service-delay"); {
 	case d == 4 && t.faulty && !isIntrospection:
 		// a slow service; like a real network client the transport gives up as
@@ -389,7 +396,7 @@ func (t *transport) Execute(ctx context.Context, req *federation.QueryRequest) (
 		return nil, errors.New("SECRET-service-unavailable-" + t.name)
 	}
 	srv := t.srv
-	if t.oldSrv != nil && !isIntrospection && r != nil && r.startedAt > 0 && r.startedAt <= t.redeployAt {
+	if t.oldSrv != nil && !isIntrospection && r != nil && r.drain {
 		t.c.Probe("request-served-by-draining-version")
 		srv = t.oldSrv
 	}
@@ -409,7 +416,14 @@ type fedRequest struct {
 	startedAt time.Duration // simulated time (+1ns) at which gateway.Execute was called
 	// lenient: began while a service version with another key set was being
 	// rolled out and the gateway had not refreshed yet; it may fail
-	lenient      bool
+	lenient bool
+	// drain: in flight when a service was redeployed with another key set; its
+	// sub-queries keep going to the version that is being drained
+	drain bool
+	// planned: the gateway was seen planning this request (only observable when
+	// the planner has a ServiceSelector); hops: sub-queries that reached a service
+	planned      bool
+	hops         int
 	wild         bool // untrusted text: only "it returns" is checked
 	vars         map[string]interface{}
 	mutation     bool
@@ -430,7 +444,7 @@ type fedRequest struct {
 
 func fedBody(c *runner.Ctx) {
 	w := newWorld(c)
-	fw := &fedWorld{w: w, homes: map[string][]string{}, wideKeys: map[string]bool{}}
+	fw := &fedWorld{w: w, homes: map[string][]string{}, wideKeys: map[string]bool{}, byTask: map[int]*fedRequest{}, selected: map[string]string{}}
 	fw.faulty = c.Choose(2, "class") == 1
 	c.Class = "fault-free"
 	if fw.faulty {
@@ -464,7 +478,7 @@ func fedBody(c *runner.Ctx) {
 	}
 	// the last service may start out as a version that wants (id, name) as the
 	// key of A and be redeployed later as one that wants the id only
-	keyShrink := !fw.faulty && c.Choose(4, "key-shrink-redeploy") == 1
+	keyShrink := !fw.faulty && c.Choose(2, "key-shrink-redeploy") == 1
 	for _, f := range []string{"A.tag", "A.score"} {
 		for _, h := range fw.homes[f] {
 			// (thunder wants every service that declares A to expose every key
@@ -503,10 +517,20 @@ func fedBody(c *runner.Ctx) {
 		execs[n] = t
 	}
 	ctx, cancelGateway := context.WithCancel(context.Background())
+	var syncer federation.SchemaSyncer = federation.NewIntrospectionSchemaSyncer(ctx, execs, nil)
+	if c.Choose(2, "syncer-with-service-selector") == 1 {
+		// an application's own SchemaSyncer, built from the exported pieces the
+		// way IntrospectionSchemaSyncer is, whose planner has a ServiceSelector:
+		// it decides which of several services that can resolve a field gets it
+		syncer = &selectorSyncer{fw: fw, execs: execs}
+		c.Describe("schema syncer with a ServiceSelector")
+	}
 	gateway, err := federation.NewExecutor(ctx, execs, &federation.SchemaSyncerConfig{
-		SchemaSyncer:              federation.NewIntrospectionSchemaSyncer(ctx, execs, nil),
+		SchemaSyncer:              syncer,
 		SchemaSyncIntervalSeconds: func(context.Context) int64 { return 1 },
 	})
+	// the poller's ticker was created just now: refreshes start at tickBase + k s
+	tickBase := simrt.Now()
 	if err != nil {
 		cancelGateway()
 		c.Violate("gateway-setup-failed", "NewExecutor: %v", err)
@@ -569,9 +593,21 @@ func fedBody(c *runner.Ctx) {
 	// rollout .. settled: the window in which a request may meet a service
 	// version whose key set the gateway does not know yet
 	var rollout, settled time.Duration
+	// Different timers never fire at the same simulated instant by chance, and
+	// time stands still while anything is runnable: a redeploy, the refresh
+	// that picks it up and a request only meet at fine grain if they are
+	// scheduled to. In some runs the redeploy is placed one millisecond before
+	// a poller tick and requests start just before that.
+	var nearTick time.Duration
+	if keyShrink && c.Choose(3, "redeploy-just-before-a-refresh") > 0 {
+		nearTick = tickBase + time.Duration(1+c.Choose(2, "which-tick"))*time.Second
+	}
 	for _, r := range reqs {
 		r := r
 		start := time.Duration(c.Choose(8, "request-start")) * 300 * time.Millisecond
+		if nearTick > 0 && c.Choose(3, "request-just-before-redeploy") > 0 {
+			start = nearTick - 2*time.Millisecond - simrt.Now()
+		}
 		go func() {
 			defer func() { finished++ }()
 			simrt.Sleep(start)
@@ -596,9 +632,11 @@ func fedBody(c *runner.Ctx) {
 				}()
 			}
 			r.startedAt = simrt.Now() + 1
-			if rollout > 0 && r.startedAt > rollout && r.startedAt <= settled {
+			if rollout > 0 && r.startedAt <= settled {
+				// began after the redeploy (the redeploy sets rollout)
 				r.lenient = true
 			}
+			fw.byTask[simrt.CurID()] = r
 			r.val, _, r.err = gateway.Execute(rctx, q, nil)
 			r.done = true
 			r.doneAt = simrt.Now()
@@ -609,7 +647,11 @@ func fedBody(c *runner.Ctx) {
 	// the next successful refresh the gateway must plan it, and its own
 	// introspection must advertise it
 	if !fw.faulty && (keyShrink || c.Choose(3, "redeploy") == 1) {
-		simrt.Sleep(time.Duration(c.Choose(2000, "redeploy-at")) * time.Millisecond)
+		if nearTick > 0 {
+			simrt.Sleep(nearTick - time.Millisecond - simrt.Now())
+		} else {
+			simrt.Sleep(time.Duration(c.Choose(2000, "redeploy-at")) * time.Millisecond)
+		}
 		last := transports[len(transports)-1]
 		if c.Choose(2, "refresh-outage") == 1 {
 			// the service is unreachable for a while during its restart: the
@@ -633,7 +675,22 @@ func fedBody(c *runner.Ctx) {
 					if fw.refreshOutageUntil > rollout {
 						settled = fw.refreshOutageUntil + 4*time.Second
 					}
-					last.oldSrv, last.redeployAt = last.srv, rollout
+					last.oldSrv = last.srv
+					// Requests in flight keep talking to the old version. What they
+					// must return is only certain if they were planned before this
+					// moment (then thunder plans and executes them with the old
+					// schema): the gateway was seen planning them, or a sub-query
+					// of theirs already reached a service.
+					for _, r := range reqs {
+						if r.startedAt > 0 && !r.done {
+							r.drain = true
+							if r.planned || r.hops > 0 {
+								c.Probe("request-planned-before-redeploy-still-in-flight")
+							} else {
+								r.lenient = true
+							}
+						}
+					}
 				}
 				last.srv = srv
 				if d := fw.refreshOutageUntil - simrt.Now(); d > 0 {
@@ -852,4 +909,90 @@ func (fw *fedWorld) checkSpecial(c *runner.Ctx, r *fedRequest) {
 			c.ViolateFor("C06", "gateway-introspection-stale-after-refresh", "the gateway serves A.extra but its own introspection does not advertise it: %s returned %s", r.text, text)
 		}
 	}
+}
+
+// selectorSyncer is a SchemaSyncer an application could write: it does what
+// federation.IntrospectionSchemaSyncer does, from the exported pieces, and
+// gives the planner a ServiceSelector.
+type selectorSyncer struct {
+	fw    *fedWorld
+	execs map[string]federation.ExecutorClient
+}
+
+func (s *selectorSyncer) FetchPlannerAndSchema(ctx context.Context) (*federation.Planner, *graphql.Schema, error) {
+	schemas := map[string]map[string]*federation.IntrospectionQueryResult{}
+	names := make([]string, 0, len(s.execs))
+	for name := range s.execs {
+		if name != federation.IntrospectionClientName {
+			names = append(names, name)
+		}
+	}
+	sort.Strings(names)
+	for _, name := range names {
+		q, err := graphql.Parse(introspection.IntrospectionQuery, map[string]interface{}{})
+		if err != nil {
+			return nil, nil, err
+		}
+		resp, err := s.execs[name].Execute(ctx, &federation.QueryRequest{Query: q})
+		if err != nil {
+			return nil, nil, err
+		}
+		var iq federation.IntrospectionQueryResult
+		if err := json.Unmarshal(resp.Result, &iq); err != nil {
+			return nil, nil, err
+		}
+		schemas[name] = map[string]*federation.IntrospectionQueryResult{"": &iq}
+	}
+	types, err := federation.ConvertVersionedSchemas(schemas)
+	if err != nil {
+		return nil, nil, err
+	}
+	raw, err := introspection.RunIntrospectionQuery(introspection.BareIntrospectionSchema(introspection.BareIntrospectionSchema(types.Schema)))
+	if err != nil {
+		return nil, nil, err
+	}
+	var iq federation.IntrospectionQueryResult
+	if err := json.Unmarshal(raw, &iq); err != nil {
+		return nil, nil, err
+	}
+	schemas[federation.IntrospectionClientName] = map[string]*federation.IntrospectionQueryResult{"": &iq}
+	if types, err = federation.ConvertVersionedSchemas(schemas); err != nil {
+		return nil, nil, err
+	}
+	planner, err := federation.NewPlanner(types, s.fw.selectService)
+	if err != nil {
+		return nil, nil, err
+	}
+	return planner, introspection.BareIntrospectionSchema(types.Schema), nil
+}
+
+// selectService is the planner's ServiceSelector: it runs on the task that
+// called Execute, while the request is being planned. For a field several
+// services can resolve it names one of them (or none: thunder's default).
+func (fw *fedWorld) selectService(typeName, fieldName string) string {
+	if r := fw.byTask[simrt.CurID()]; r != nil {
+		r.planned = true
+	}
+	// a selector that consults something slow now and then (a flag service):
+	// the request stays in its planning phase while refreshes come and go
+	if d := fw.w.c.Biased(4, 900, "service-selector-slow"); d > 0 {
+		fw.w.c.Fault("service-selector-slow")
+		simrt.Sleep([]time.Duration{0, time.Millisecond, 20 * time.Millisecond, 300 * time.Millisecond}[d])
+	}
+	// a mapping from <type, field> to a service, as documented: the same
+	// answer every time it is asked about a field
+	key := typeName + "." + fieldName
+	if picked, ok := fw.selected[key]; ok {
+		return picked
+	}
+	homes := fw.homes[key]
+	picked := ""
+	if len(homes) >= 2 {
+		if k := fw.w.c.Choose(len(homes)+1, "service-selector"); k > 0 {
+			fw.w.c.Probe("service-selector-picked-a-service")
+			picked = homes[k-1]
+		}
+	}
+	fw.selected[key] = picked
+	return picked
 }
